@@ -163,10 +163,13 @@ def malform_fh(kind, steps):
         return ForecastingHorizon(pd.Index([], dtype=np.int64))
     if kind == "fh_empty":
         return []
+    # (every step fractional, or - when the steps allow - whole and fractional steps mixed)
+    mixed = len(steps) >= 2 and sum(steps) % 2 == 0
     if kind == "fh_frac_list":
-        return [s + 0.5 for s in steps]
+        return [s + 0.5 for s in steps] if not mixed else [steps[0]] + [s + 0.5 for s in steps[1:]]
     if kind == "fh_frac_array":
-        return np.array([s + 0.5 for s in steps])
+        return np.array([s + 0.5 for s in steps] if not mixed
+                        else [float(steps[0])] + [s + 0.5 for s in steps[1:]])
     if kind == "fh_frac_scalar":
         return steps[0] + 0.5
     if kind == "fh_str":
@@ -281,7 +284,9 @@ def _splitter(ctx, **over):
     step = over.pop("step", ctx.rng.choice([1, 2, 3]))
     cut = over.pop("cutoffs", np.array([10, 13, 16]))
     if t == "sliding":
-        return lambda: SlidingWindowSplitter(fh=fh, window_length=w, step_length=step)
+        sww = over.pop("start_with_window", True)
+        return lambda: SlidingWindowSplitter(fh=fh, window_length=w, step_length=step,
+                                             start_with_window=sww)
     if t == "expanding":
         return lambda: ExpandingWindowSplitter(fh=fh, initial_window=w, step_length=step)
     if t == "single":
@@ -534,14 +539,18 @@ def _register_int_cells():
         n = len(ctx.y_train)
         hmax = max(ctx.steps)
         # largest window that still fits (control) vs the smallest one that does not (fault)
+        extra = {}
+        if t == "sliding" and ctx.rng.random() < 0.5:
+            extra = {"start_with_window": False}   # (what update_predict builds by default)
         if ctx.rng.random() < 0.5:
-            good = _splitter(ctx, type=t, window=n - hmax)
-            bad = _splitter(ctx, type=t, window=n - hmax + 1)
+            good = _splitter(ctx, type=t, window=n - hmax, **extra)
+            bad = _splitter(ctx, type=t, window=n - hmax + 1, **extra)
         else:
-            good = _splitter(ctx, type=t, window=6)
-            bad = _splitter(ctx, type=t, window=n + ctx.rng.choice([0, 1, 5]))
+            good = _splitter(ctx, type=t, window=6, **extra)
+            bad = _splitter(ctx, type=t, window=n + ctx.rng.choice([0, 1, 5]), **extra)
         return dict(control=lambda: list(good().split(ctx.y_train)),
-                    faulty=lambda: list(bad().split(ctx.y_train)), sig={"splitter": t})
+                    faulty=lambda: list(bad().split(ctx.y_train)),
+                    sig={"splitter": t, "start_with_window": not extra})
     cell("split/window_does_not_fit", "window_does_not_fit", "entry_splitter")(split_oversize)
 
     def cutoff_beyond(ctx):
